@@ -172,6 +172,7 @@ structure AmbientStd where
 /-- documented conversion of a chemical-property unit: SI = a · value (· M) + b -/
 structure ChemStd where
   pat : String
+  alt : String        -- documented spelling without parentheses ("" = none)
   a : Rat
   b : Rat
   usesM : Bool
@@ -216,28 +217,28 @@ def ambient : List AmbientStd := [
 def ambientLookup (u : String) : Option AmbientStd := ambient.find? (fun r => r.unit == u)
 
 def chem : List ChemStd := [
-  ⟨"(g/mol)", 1 / 1000, 0, false, "(kg/mol)", 0⟩,
-  ⟨"(psia)", psi, 0, false, "(Pa)", 1 / 1000000⟩,
-  ⟨"(kPa)", 1000, 0, false, "(Pa)", 0⟩,
-  ⟨"(deg F)", 5 / 9, 273.15 - 32 * 5 / 9, false, "(K)", 0⟩,
+  ⟨"(g/mol)", "g/mol", 1 / 1000, 0, false, "(kg/mol)", 0⟩,
+  ⟨"(psia)", "psia", psi, 0, false, "(Pa)", 1 / 1000000⟩,
+  ⟨"(kPa)", "", 1000, 0, false, "(Pa)", 0⟩,
+  ⟨"(deg F)", "", 5 / 9, 273.15 - 32 * 5 / 9, false, "(K)", 0⟩,
   -- mol/(dm³ atm) → kg/(m³ Pa): ·1000 dm³/m³ / 101325 Pa/atm · M kg/mol
-  ⟨"(mol/dm^3 atm)", 1000 / 101325, 0, true, "(kg/(m^3 Pa))", 0⟩,
-  ⟨"(mm^2/sec)", 1 / 1000000, 0, false, "(m^2/s)", 0⟩,
-  ⟨"(cal/mol)", 4.1868, 0, false, "(J/mol)", 1 / 1000000⟩,
-  ⟨"(L/mol)", 1 / 1000, 0, false, "(m^3/mol)", 0⟩,
-  ⟨"(1/d)", 1 / 86400, 0, false, "(1/s)", 0⟩,
-  ⟨"(d)", 86400, 0, false, "(s)", 0⟩,
-  ⟨"(g/cm^3)", 1000, 0, false, "(kg/m^3)", 0⟩,
-  ⟨"(ft^3/lb-mol)", ft3_per_lbmol, 0, false, "(m^3/mol)", 0⟩,
-  ⟨"(ft^3/lb-mol/deg F)", ft3_per_lbmol * perF, 0, false, "(m^3/mol/deg C)", 0⟩,
-  ⟨"(BTU/lb-mol)", btu_per_lbmol, 0, false, "(J/mol)", 5 / 1000000⟩,
-  ⟨"(BTU/lb-mol/deg F)", btu_per_lbmol * perF, 0, false, "(J/mol/deg C)", 5 / 1000000⟩,
-  ⟨"(BTU/lb-mol/deg F^2)", btu_per_lbmol * perF * perF, 0, false, "(J/mol/deg C^2)", 5 / 1000000⟩,
-  ⟨"(BTU/lb-mol/deg F^3)", btu_per_lbmol * perF * perF * perF, 0, false, "(J/mol/deg C^3)", 5 / 1000000⟩,
-  ⟨"(BTU/lb-mol/deg F^4)", btu_per_lbmol * perF * perF * perF * perF, 0, false, "(J/mol/deg C^4)", 5 / 1000000⟩,
-  ⟨"(L/mol/deg F)", 1 / 1000 * perF, 0, false, "(m^3/mol/deg C)", 0⟩,
+  ⟨"(mol/dm^3 atm)", "mol/dm^3 atm", 1000 / 101325, 0, true, "(kg/(m^3 Pa))", 0⟩,
+  ⟨"(mm^2/sec)", "mm^2/sec", 1 / 1000000, 0, false, "(m^2/s)", 0⟩,
+  ⟨"(cal/mol)", "cal/mol", 4.1868, 0, false, "(J/mol)", 1 / 1000000⟩,
+  ⟨"(L/mol)", "L/mol", 1 / 1000, 0, false, "(m^3/mol)", 0⟩,
+  ⟨"(1/d)", "1/d", 1 / 86400, 0, false, "(1/s)", 0⟩,
+  ⟨"(d)", "", 86400, 0, false, "(s)", 0⟩,
+  ⟨"(g/cm^3)", "", 1000, 0, false, "(kg/m^3)", 0⟩,
+  ⟨"(ft^3/lb-mol)", "", ft3_per_lbmol, 0, false, "(m^3/mol)", 0⟩,
+  ⟨"(ft^3/lb-mol/deg F)", "", ft3_per_lbmol * perF, 0, false, "(m^3/mol/deg C)", 0⟩,
+  ⟨"(BTU/lb-mol)", "", btu_per_lbmol, 0, false, "(J/mol)", 5 / 1000000⟩,
+  ⟨"(BTU/lb-mol/deg F)", "", btu_per_lbmol * perF, 0, false, "(J/mol/deg C)", 5 / 1000000⟩,
+  ⟨"(BTU/lb-mol/deg F^2)", "", btu_per_lbmol * perF * perF, 0, false, "(J/mol/deg C^2)", 5 / 1000000⟩,
+  ⟨"(BTU/lb-mol/deg F^3)", "", btu_per_lbmol * perF * perF * perF, 0, false, "(J/mol/deg C^3)", 5 / 1000000⟩,
+  ⟨"(BTU/lb-mol/deg F^4)", "", btu_per_lbmol * perF * perF * perF * perF, 0, false, "(J/mol/deg C^4)", 5 / 1000000⟩,
+  ⟨"(L/mol/deg F)", "", 1 / 1000 * perF, 0, false, "(m^3/mol/deg C)", 0⟩,
   -- CHANGES.txt V3.4.3: "0.001 ppt is equal to 1 psu"
-  ⟨"(ppt)", 1000, 0, false, "(psu)", 0⟩]
+  ⟨"(ppt)", "", 1000, 0, false, "(psu)", 0⟩]
 
 def chemLookup (p : String) : Option ChemStd := chem.find? (fun r => r.pat == p)
 
@@ -249,7 +250,7 @@ def ratToFloat (q : Rat) : Float :=
 
 /-- documented conversion of one chemical-property value with unit string `u` (first pattern contained in `u`) -/
 def chemApply (u : String) (x M : Float) : Option (Float × String) :=
-  match chem.find? (fun r => isInfix r.pat.toList u.toList) with
+  match chem.find? (fun r => isInfix r.pat.toList u.toList || (r.alt != "" && u == r.alt)) with
   | some r => some ((if r.usesM then ratToFloat r.a * x * M else ratToFloat r.a * x) + ratToFloat r.b, r.out)
   | none => none
 
